@@ -231,6 +231,36 @@ Definition check_C01' (b : bscen) (sched : list tid) (impl : bobs) : verdict :=
   mkv (v_strict v) (v_proj v && acyclic_order (sc_nlocks (bs_sc b)) (bo_evs impl)) (v_mon v) (v_monk v).
 Definition acyclic_impl (b : bscen) (impl : bobs) : bool := acyclic_order (sc_nlocks (bs_sc b)) (bo_evs impl).
 
+(* ---------------------------------------------------------------- second comparison: release-atomic schedules *)
+(* When the comparison above fails, the scenario is run again, on both sides, with runs of consecutive releases of one
+   thread made atomic (Conc.drain_g with ra = true; the harness does not yield between them).  The order of the
+   releases inside such a run is then invisible to the other threads, and the two observations are compared in full
+   (every event, final holds, poison flags) after sorting each run by lock.  A difference that survives only in the
+   order of releases inside a run does not bear on any of the properties. *)
+Definition bev_rel_of (e : bev) : option tid :=
+  match e with BE (ERaw t (OUnlock | OUnlockSh) _ RUnit) => Some t | _ => None end.
+Definition bev_lockid (e : bev) : nat := match e with BE x => ev_lockid x | _ => 0 end.
+Fixpoint bnorm_runs (rt : tid) (run : list bev) (evs : list bev) : list bev :=
+  match evs with
+  | [] => isort bev_lockid run
+  | e :: r => match bev_rel_of e with
+              | Some t => if Nat.eqb t rt then bnorm_runs rt (e :: run) r
+                          else isort bev_lockid run ++ bnorm_runs t [e] r
+              | None => isort bev_lockid run ++ e :: bnorm_runs rt [] r
+              end
+  end.
+Definition bnorm (o : bobs) : bobs := mkbo (bo_status o) (bnorm_runs 0 [] (bo_evs o)) (bo_holds o) (bo_psn o).
+
+Definition bcheck_ra (mon : bscen -> bobs -> bool) (b : bscen) (sched : list tid) (impl : bobs) : verdict :=
+  let m := model_bobs_g true b sched in
+  let ok := mon b impl in
+  mkv (bobs_eqb m impl) (bobs_eqb (bnorm m) (bnorm impl)) ok ok.
+Definition check_C01_ra (b : bscen) (sched : list tid) (impl : bobs) : verdict :=
+  let v := bcheck_ra (fun b o => mon_C01 b o && mon_C03b b o && mon_C05b b o) b sched impl in
+  mkv (v_strict v) (v_proj v && model_stable_g true b sched && acyclic_order (sc_nlocks (bs_sc b)) (bo_evs impl)) (v_mon v) (v_monk v).
+Definition check_C02_ra := bcheck_ra mon_C02.
+Definition check_C09_ra := bcheck_ra mon_C09.
+
 (* ---------------------------------------------------------------- C10 on interleaved executions *)
 (* What an acquisition returns (Ok / Err(poisoned)) must agree with the panics that unwound exclusive holds before the
    acquisition was granted.  A hold's poisoning is dated at the first release of the unwinding guard (the flag is set
